@@ -108,13 +108,23 @@ fn cipher_name(c: u8) -> &'static str {
     match c {
         b'S' => "salsa20",
         b'A' => "arc4",
-        _ => "none",
+        0 => "none",
+        _ => "unknown-type",
     }
 }
 
+/// Encryption type bytes that are neither 'S' (Salsa20) nor 'A' (ARC4): the `encryption_type` field of
+/// `EncryptionSpec` is public, so "all encryption specs" includes them. The encoder must refuse them (or
+/// produce a container that decodes to the added bytes).
+const UNKNOWN_ENC_TYPES: [u8; 6] = [0x01, b'X', b's', b'a', b'E', 0xFF];
+
 fn spec_of(p: &Program, e: Enc) -> (EncryptionSpec, [u8; 16]) {
     let (name, key) = p.keys[e.key_idx];
-    let spec = if e.cipher == b'A' { EncryptionSpec::arc4(name, e.iv) } else { EncryptionSpec::salsa20(name, e.iv) };
+    let spec = match e.cipher {
+        b'A' => EncryptionSpec::arc4(name, e.iv),
+        b'S' => EncryptionSpec::salsa20(name, e.iv),
+        other => EncryptionSpec { key_name: name, iv: e.iv, encryption_type: other },
+    };
     (spec, key)
 }
 
@@ -138,7 +148,14 @@ fn gen_enc(rng: &mut Rng, nkeys: usize) -> Enc {
         1 => [0xff; 4],
         _ => rng.array::<4>(),
     };
-    Enc { cipher: if rng.chance(2, 3) { b'S' } else { b'A' }, key_idx: rng.usize_below(nkeys), iv }
+    let cipher = if rng.chance(1, 40) {
+        *rng.pick(&UNKNOWN_ENC_TYPES)
+    } else if rng.chance(2, 3) {
+        b'S'
+    } else {
+        b'A'
+    };
+    Enc { cipher, key_idx: rng.usize_below(nkeys), iv }
 }
 
 fn gen_payload(rng: &mut Rng, cs: usize, big_ok: bool) -> (String, Vec<u8>) {
@@ -234,9 +251,11 @@ fn gen_program(rng: &mut Rng) -> Program {
     let mut big_used = false;
     // shape bias: some programs are all-add (composition of calls), some config-heavy
     let add_bias = rng.urange(4, 8) as u64;
+    // a few programs never add anything: `build` must then refuse (or produce a container that decodes to nothing)
+    let no_adds = rng.chance(1, 60);
     for i in 0..nsteps {
-        let must_add = i + 1 == nsteps && !p.steps.iter().any(Step::is_add);
-        let step = if must_add || rng.below(10) < add_bias {
+        let must_add = !no_adds && i + 1 == nsteps && !p.steps.iter().any(Step::is_add);
+        let step = if must_add || (!no_adds && rng.below(10) < add_bias) {
             let (class, payload) = gen_payload(rng, cs, !big_used);
             if payload.len() > 100 * 1024 {
                 big_used = true;
@@ -277,11 +296,11 @@ fn describe(p: &Program) -> Value {
             Step::Compression(m) => json!({"call":"with_compression","mode":char::from(*m).to_string()}),
             Step::ChunkSize(v) => json!({"call":"with_chunk_size","size":v}),
             Step::ChunkSizeUnchecked(v) => json!({"call":"with_chunk_size_unchecked","size":v}),
-            Step::Encryption(e) => json!({"call":"with_encryption","cipher":cipher_name(e.cipher),"key":e.key_idx,"iv":hex::encode(e.iv)}),
+            Step::Encryption(e) => json!({"call":"with_encryption","cipher":cipher_name(e.cipher),"type_byte":e.cipher,"key":e.key_idx,"iv":hex::encode(e.iv)}),
             Step::NoEncryption => json!({"call":"without_encryption"}),
             Step::AddData(i) => json!({"call":"add_data","payload":i}),
-            Step::AddMixed(i, e) => json!({"call":"add_mixed_data","payload":i,"enc":e.map(|e| json!({"cipher":cipher_name(e.cipher),"key":e.key_idx,"iv":hex::encode(e.iv)}))}),
-            Step::AddEncrypted(i, e) => json!({"call":"add_encrypted_data","payload":i,"cipher":cipher_name(e.cipher),"key":e.key_idx,"iv":hex::encode(e.iv),"block_index":"= chunk position"}),
+            Step::AddMixed(i, e) => json!({"call":"add_mixed_data","payload":i,"enc":e.map(|e| json!({"cipher":cipher_name(e.cipher),"type_byte":e.cipher,"key":e.key_idx,"iv":hex::encode(e.iv)}))}),
+            Step::AddEncrypted(i, e) => json!({"call":"add_encrypted_data","payload":i,"cipher":cipher_name(e.cipher),"type_byte":e.cipher,"key":e.key_idx,"iv":hex::encode(e.iv),"block_index":"= chunk position"}),
             Step::AddChunk(i, m) => json!({"call":"add_chunk(ChunkData::new)","payload":i,"mode":char::from(*m).to_string()}),
             Step::AddChunkPre(i, m, known) => json!({"call":"add_chunk(ChunkData::from_compressed)","payload":i,"mode":char::from(*m).to_string(),"decoded_size_given":known}),
         })
@@ -414,6 +433,9 @@ struct Case<'a> {
 fn enc_class(exp: &[ExpChunk]) -> &'static str {
     let s = exp.iter().any(|c| c.cipher == b'S');
     let a = exp.iter().any(|c| c.cipher == b'A');
+    if exp.iter().any(|c| c.cipher != 0 && c.cipher != b'S' && c.cipher != b'A') {
+        return "enc=unknown-type";
+    }
     match (s, a) {
         (false, false) => "enc=none",
         (true, false) => "enc=salsa20",
@@ -657,6 +679,76 @@ fn judge(ctx: &Ctx, loc: &mut Local, pylog: &Mutex<PyLog>, case: &Case<'_>) {
             }
         }
     }
+
+    // ---- (e) accessors of the parsed container against the serialized bytes. The independent decoder says where
+    // the chunks lie in the file and what their MD5 is; the library's own header/chunk accessors and its checksum
+    // verifier must describe the same bytes (truthful table, as seen through the library's API).
+    if let (Some(f), Ok(d)) = (&parsed, &rd) {
+        if ref_ok {
+            let table = match d.table_format {
+                None => "table=none",
+                Some(0x0F) => "table=0x0F",
+                Some(0x10) => "table=0x10",
+                Some(_) => "table=other",
+            };
+            loc.obs("accessors.headers_checked", 1);
+            let mut rels: Vec<(&'static str, Value)> = Vec::new();
+            let (cc, sc) = (f.header.chunk_count(), f.header.is_single_chunk());
+            if cc != d.chunks.len() {
+                rels.push(("BlteHeader::chunk_count()!=chunks-in-container", json!({"chunk_count()":cc,"chunks_in_container":d.chunks.len()})));
+            }
+            if sc != d.table_format.is_none() {
+                rels.push(("BlteHeader::is_single_chunk()!=(container-has-no-chunk-table)", json!({"is_single_chunk()":sc,"table_format":d.table_format})));
+            }
+            if let Some(first) = d.chunks.first() {
+                let (off, ths) = (f.header.data_offset(), f.header.total_header_size());
+                if off != first.start {
+                    rels.push(("BlteHeader::data_offset()!=offset-of-first-chunk", json!({"data_offset()":off,"first_chunk_offset":first.start})));
+                }
+                if ths != first.start {
+                    rels.push(("BlteHeader::total_header_size()!=bytes-before-first-chunk", json!({"total_header_size()":ths,"first_chunk_offset":first.start})));
+                }
+            }
+            for (rel, info) in rels {
+                ctx.violation(
+                    &format!("C01|{entry}|{rel}|{table}"),
+                    "a header accessor of the parsed container disagrees with the serialized bytes",
+                    with_detail(json!({"relation":rel,"values":info})),
+                );
+            }
+            if f.chunks.len() == d.chunks.len() {
+                for (i, (fc, c)) in f.chunks.iter().zip(&d.chunks).enumerate() {
+                    let stored = &case.container[c.start..c.end];
+                    let mode = char::from(c.mode);
+                    let mut bad: Vec<(&'static str, Value)> = Vec::new();
+                    let csz = fc.compressed_size();
+                    if csz != stored.len() {
+                        bad.push(("ChunkData::compressed_size()!=bytes-occupied", json!({"compressed_size()":csz,"actual":stored.len()})));
+                    }
+                    let real = md5::compute(stored).0;
+                    // what a reader would pass: the checksum recorded in the table (its truthfulness is judged in (c));
+                    // a single-chunk file has no table: the independently computed MD5
+                    let ck = c.table_checksum.unwrap_or(real);
+                    if ck == real && !fc.verify_checksum(&ck) {
+                        bad.push(("ChunkData::verify_checksum-rejects-md5(stored-chunk)", json!({"checksum":hex::encode(ck)})));
+                    }
+                    let mut wrong = real;
+                    wrong[i % 16] ^= 1 << (i % 8);
+                    if wrong != [0u8; 16] && fc.verify_checksum(&wrong) {
+                        bad.push(("ChunkData::verify_checksum-accepts-checksum!=md5(stored-chunk)", json!({"checksum":hex::encode(wrong),"md5_of_stored_chunk":hex::encode(real)})));
+                    }
+                    loc.obs("accessors.chunks_checked", 1);
+                    for (rel, info) in bad {
+                        ctx.violation(
+                            &format!("C01|{entry}|{rel}|stored-mode={mode}"),
+                            "a chunk accessor / the checksum verifier of the parsed container disagrees with the serialized chunk",
+                            with_detail(json!({"chunk":i,"relation":rel,"values":info,"chunk_origin":case.expected.get(i).map(|c| c.origin)})),
+                        );
+                    }
+                }
+            }
+        }
+    }
 }
 
 // ------------------------------------------------------------------ running a builder program
@@ -680,6 +772,14 @@ fn run_program(ctx: &Ctx, loc: &mut Local, pylog: &Mutex<PyLog>, p: &Program, co
     let mut refused: Option<(&'static str, String)> = None;
     for s in &p.steps {
         let kind = s.kind();
+        // encryption spec this call encrypts with (None: the call does not encrypt)
+        let effective_enc = match s {
+            Step::AddData(_) => enc,
+            Step::AddMixed(_, e) => *e,
+            Step::AddEncrypted(_, e) => Some(*e),
+            _ => None,
+        };
+        let unknown_type = effective_enc.is_some_and(|e| e.cipher != b'S' && e.cipher != b'A');
         let r = catch_unwind(AssertUnwindSafe(|| -> Result<BlteBuilder, String> {
             let b = std::mem::take(&mut builder);
             match s {
@@ -712,8 +812,17 @@ fn run_program(ctx: &Ctx, loc: &mut Local, pylog: &Mutex<PyLog>, p: &Program, co
             }
         }));
         match r {
-            Ok(Ok(b)) => builder = b,
+            Ok(Ok(b)) => {
+                builder = b;
+                if unknown_type {
+                    // not a refusal: the container is judged like any other (it must decode to the added bytes)
+                    loc.obs("unknown_encryption_type.accepted_and_judged", 1);
+                }
+            }
             Ok(Err(e)) => {
+                if unknown_type {
+                    loc.obs("unknown_encryption_type.refused", 1);
+                }
                 refused = Some((kind, e));
                 break;
             }
@@ -747,6 +856,10 @@ fn run_program(ctx: &Ctx, loc: &mut Local, pylog: &Mutex<PyLog>, p: &Program, co
             Step::AddChunkPre(i, _, known) => exp.push(ExpChunk { payload: p.payloads[*i].1.clone(), origin: if *known { "add_chunk(from_compressed,size-given)" } else { "add_chunk(from_compressed,size-unknown)" }, cipher: 0 }),
         }
     }
+    let no_add_calls = !p.steps.iter().any(Step::is_add);
+    if no_add_calls {
+        loc.obs("programs.no_add_calls", 1);
+    }
     if let Some((kind, e)) = refused {
         loc.obs(&format!("refused.{kind}"), 1);
         loc.obs(&format!("refused.reason.{}", err_class(&e)), 1);
@@ -756,6 +869,9 @@ fn run_program(ctx: &Ctx, loc: &mut Local, pylog: &Mutex<PyLog>, p: &Program, co
     let mut file = match built {
         Ok(Ok(f)) => f,
         Ok(Err(e)) => {
+            if no_add_calls {
+                loc.obs("programs.no_add_calls.build_refused", 1);
+            }
             loc.obs("refused.build", 1);
             loc.obs(&format!("refused.reason.{}", err_class(&e)), 1);
             return;
@@ -791,6 +907,9 @@ fn run_program(ctx: &Ctx, loc: &mut Local, pylog: &Mutex<PyLog>, p: &Program, co
         }
     };
     loc.obs("programs.all_calls_ok", 1);
+    if no_add_calls {
+        loc.obs("programs.no_add_calls.accepted_and_judged", 1);
+    }
     let any_enc = exp.iter().any(|c| c.cipher != 0);
     let adds = p.steps.iter().filter(|s| s.is_add()).count();
     if adds >= 2 || exp.len() >= 2 || any_enc {
@@ -950,14 +1069,35 @@ fn run_primitives(ctx: &Ctx, loc: &mut Local, rng: &mut Rng, coords: &Value) {
         let bi = rng.urange(0, 70_000);
         let mut store = TactKeyStore::empty();
         store.add(TactKey::new(name, key));
-        for cipher in *b"SA" {
-            let spec = if cipher == b'A' { EncryptionSpec::arc4(name, iv) } else { EncryptionSpec::salsa20(name, iv) };
+        let unknown = *rng.pick(&UNKNOWN_ENC_TYPES);
+        for cipher in [b'S', b'A', unknown] {
+            let spec = match cipher {
+                b'A' => EncryptionSpec::arc4(name, iv),
+                b'S' => EncryptionSpec::salsa20(name, iv),
+                other => EncryptionSpec { key_name: name, iv, encryption_type: other },
+            };
+            // the spec's own classification must be the cipher it was constructed for (the type byte is what is written
+            // into the chunk and what the decoder dispatches on)
+            if spec.is_salsa20() != (cipher == b'S') || spec.is_arc4() != (cipher == b'A') {
+                ctx.violation(
+                    &format!("C01|EncryptionSpec|is_salsa20()/is_arc4()-disagree-with-constructor|cipher={}", cipher_name(cipher)),
+                    "EncryptionSpec::is_salsa20 / is_arc4 do not report the cipher the spec was constructed for",
+                    json!({"coords":coords,"type_byte":cipher,"is_salsa20()":spec.is_salsa20(),"is_arc4()":spec.is_arc4()}),
+                );
+            }
             let mut inner = vec![m];
             inner.extend_from_slice(&comp);
             let Ok(Ok(ct)) = catch_unwind(AssertUnwindSafe(|| encrypt_chunk_with_key(&inner, spec, &key, bi))) else {
                 loc.obs("refused.encrypt_chunk_with_key", 1);
+                if cipher == unknown {
+                    loc.obs("unknown_encryption_type.refused", 1);
+                }
                 continue;
             };
+            if cipher == unknown {
+                // not refused: judged like the known ciphers (must decrypt back to the payload)
+                loc.obs("unknown_encryption_type.accepted_and_judged", 1);
+            }
             let back = catch_unwind(AssertUnwindSafe(|| decrypt_chunk_with_keys(&ct, &store, bi).map_err(|e| e.to_string())));
             if !matches!(&back, Ok(Ok(v)) if *v == data) {
                 ctx.violation(
@@ -998,6 +1138,47 @@ fn run_coords(ctx: &Ctx, loc: &mut Local, pylog: &Mutex<PyLog>, stream: u64, idx
         }
         STREAM_DIRECT => run_direct(ctx, loc, pylog, &mut rng, &coords),
         _ => run_primitives(ctx, loc, &mut rng, &coords),
+    }
+}
+
+/// Encoder calls with nothing to encode: each must refuse, or return a container that decodes to the empty string
+/// (and whose table is truthful). Deterministic, run once.
+fn empty_encoder_cases(ctx: &Ctx, loc: &mut Local, pylog: &Mutex<PyLog>) {
+    type Made = Result<Result<Vec<u8>, String>, Box<dyn std::any::Any + Send>>;
+    let ser = |f: BlteFile| CascFormat::build(&f).map_err(|e| e.to_string());
+    let cases: Vec<(&'static str, Made)> = vec![
+        ("BlteBuilder::build(no-chunks)", catch_unwind(AssertUnwindSafe(|| BlteBuilder::new().build().map_err(|e| e.to_string()).and_then(ser)))),
+        (
+            "BlteBuilder::build(no-chunks,encryption-set)",
+            catch_unwind(AssertUnwindSafe(|| {
+                BlteBuilder::new().with_compression(CompressionMode::ZLib).with_encryption(EncryptionSpec::salsa20(7, [1, 2, 3, 4]), [9u8; 16]).build().map_err(|e| e.to_string()).and_then(ser)
+            })),
+        ),
+        ("BlteFile::multi_chunk(no-chunks)", catch_unwind(AssertUnwindSafe(|| BlteFile::multi_chunk(Vec::new()).map_err(|e| e.to_string()).and_then(ser)))),
+        (
+            "BlteHeader::multi_chunk(no-chunks)",
+            catch_unwind(AssertUnwindSafe(|| BlteHeader::multi_chunk(&[]).map_err(|e| e.to_string()).and_then(|h| ser(BlteFile { header: h, chunks: Vec::new() })))),
+        ),
+        (
+            "BlteHeader::multi_chunk_extended(no-chunks)",
+            catch_unwind(AssertUnwindSafe(|| BlteHeader::multi_chunk_extended(&[]).map_err(|e| e.to_string()).and_then(|h| ser(BlteFile { header: h, chunks: Vec::new() })))),
+        ),
+    ];
+    for (entry, made) in cases {
+        loc.evals += 1;
+        loc.obs("empty_encoder.cases", 1);
+        match made {
+            Ok(Ok(bytes)) => {
+                loc.obs(&format!("empty_encoder.accepted_and_judged.{entry}"), 1);
+                let detail = json!({"coords":{"empty_encoder":entry},"call":entry});
+                judge(ctx, loc, pylog, &Case { entry, container: &bytes, keys: &[], expected: &[], tolerate_dck_on_encrypted: false, detail });
+            }
+            Ok(Err(e)) => {
+                loc.obs(&format!("empty_encoder.refused.{entry}"), 1);
+                loc.obs(&format!("refused.reason.{}", err_class(&e)), 1);
+            }
+            Err(_) => loc.obs(&format!("observed.encoder_panicked.{entry}"), 1),
+        }
     }
 }
 
@@ -1056,6 +1237,8 @@ fn main() {
             if let Some(p) = fixed_programs().get(i as usize) {
                 run_program(&ctx, &mut loc, &pylog, p, &c);
             }
+        } else if c.get("empty_encoder").is_some() {
+            empty_encoder_cases(&ctx, &mut loc, &pylog);
         } else if let (Some(s), Some(i)) = (c.get("stream").and_then(Value::as_u64), c.get("idx").and_then(Value::as_u64)) {
             run_coords(&ctx, &mut loc, &pylog, s, i);
         } else {
@@ -1075,6 +1258,7 @@ fn main() {
             loc.obs("programs.fixed", 1);
             run_program(&ctx, &mut loc, &pylog, p, &json!({"fixed": i}));
         }
+        empty_encoder_cases(&ctx, &mut loc, &pylog);
         loc.flush(&ctx);
     }
 
@@ -1115,12 +1299,20 @@ fn main() {
         ("chunk.stored_mode.4", "no LZ4 chunk was decoded by the independent decoder"),
         ("table.entries_checked", "no chunk table entry was checked"),
         ("table.extended_entries_checked", "no extended (0x10) chunk table entry was checked"),
+        ("accessors.headers_checked", "no header accessor (chunk_count / data_offset / total_header_size) was compared with the serialized bytes"),
+        ("accessors.chunks_checked", "no chunk accessor (compressed_size / verify_checksum) was compared with the serialized chunk"),
+        ("empty_encoder.cases", "the encoder calls without any chunk were not exercised"),
+        ("programs.no_add_calls", "no builder program without an add call was generated"),
         ("op.BlteFile::compress", "BlteFile::compress was never called"),
         ("op.BlteFile::single_chunk", "BlteFile::single_chunk was never called"),
     ] {
         if ctx.get_obs(k) == 0 {
             ctx.inconclusive(&format!("{why} (observation {k} = 0)"));
         }
+    }
+
+    if ctx.get_obs("unknown_encryption_type.refused") + ctx.get_obs("unknown_encryption_type.accepted_and_judged") == 0 {
+        ctx.inconclusive("no encrypting call with an encryption type other than Salsa20/ARC4 was made");
     }
 
     let written = {
